@@ -72,6 +72,10 @@ b("trimmedmean-narrow-before-sort", ["C10", "C16"], A + "trimmed_mean.py", "sort
   "sorted_matrix = matrix\n        trimmed = torch.narrow(sorted_matrix,")
 # C11
 b("trimmedmean-finite-check-removed", ["C11"], A + "trimmed_mean.py", "        self._check_is_finite(matrix)\n", "", "measured")
+b("finite-check-nan-only", ["C11"], A + "bases.py", "if not matrix.isfinite().all():", "if matrix.isnan().any():", "infinite entries are no longer rejected")
+b("finite-check-inverted", ["C11"], A + "bases.py", "if not matrix.isfinite().all():", "if matrix.isfinite().all():")
+b("finite-check-any-finite", ["C11"], A + "bases.py", "if not matrix.isfinite().all():", "if not matrix.isfinite().any():", "only an input without any finite entry is rejected")
+b("finite-check-nan-and-inf", ["C11"], A + "bases.py", "if not matrix.isfinite().all():", "if (matrix.isnan() & matrix.isinf()).any():", "never true")
 b("constant-rowcount-check-removed", ["C11"], A + "constant.py", "        self._check_matrix_shape(matrix)\n", "", "measured")
 b("matrix-abs-inplace", ["C11"], A + "graddrop.py", "        fP = self.f(P)\n", "        fP = self.f(P)\n        matrix.abs_()\n")
 b("weights-cached-on-self", ["C11", "C05"], A + "mean.py", "        return weights\n", "        self._last = weights\n        return weights\n")
@@ -138,6 +142,8 @@ k("accumulate-negated-test", ["C06", "C01", "C20"], T + "accumulate.py",
 k("trimmedmean-slice-form", ["C16", "C08", "C10", "C11"], A + "trimmed_mean.py", "trimmed = torch.narrow(sorted_matrix, dim=0, start=self.trim_number, length=n_remaining)",
   "trimmed = sorted_matrix[self.trim_number : n_rows - self.trim_number]")
 k("krum-arithmetic-regrouped", ["C16", "C10"], A + "krum.py", "n_closest = matrix.shape[0] - self.n_byzantine - 2", "n_closest = matrix.shape[0] - (self.n_byzantine + 2)")
+k("finite-check-nan-or-inf", ["C11", "C08", "C10"], A + "bases.py", "if not matrix.isfinite().all():", "if (matrix.isnan() | matrix.isinf()).any():")
+k("finite-check-not-any-nonfinite", ["C11", "C08"], A + "bases.py", "if not matrix.isfinite().all():", "if torch.logical_not(torch.isfinite(matrix)).any():", more=[(A + "bases.py", "from torch import Tensor, nn", "import torch\nfrom torch import Tensor, nn")])
 k("checks-reordered", ["C11", "C08"], A + "bases.py", "        self._check_is_matrix(matrix)\n        self._check_is_finite(matrix)\n\n        weights", "        self._check_is_matrix(matrix)\n        self._check_is_finite(matrix)\n        weights")
 k("upgrad-sum-method", ["C03", "C08", "C10"], A + "upgrad.py", "return torch.sum(W, dim=0)", "return W.sum(dim=0)")
 k("mgda-step-refactored", ["C18", "C10", "C11"], A + "mgda.py", "alpha = (1 - gamma) * alpha + gamma * e_t", "alpha = alpha + gamma * (e_t - alpha)")
@@ -206,3 +212,6 @@ import os as _os
 _PD = _os.path.join(_os.path.dirname(_os.path.abspath(__file__)), "patches")
 b("pcgrad-schedule-transposed-update", ["C18"], "@seed", _os.path.join(_PD, "pcgrad-schedule-transposed-update.diff"), "", "the update hits W[j, i]: the weight of row i in the projected vector of row j")
 b("pcgrad-schedule-self-not-skipped", ["C18"], "@seed", _os.path.join(_PD, "pcgrad-schedule-self-not-skipped.diff"), "", "the schedule no longer leaves out j == i")
+# PCGrad walking zip(order, G[order]) (see seeded_keep/C18-r6K1): broken twins
+b("pcgrad-zip-misaligned", ["C18"], "@seed", _os.path.join(_PD, "pcgrad-zip-misaligned.diff"), "", "zip(order, G): the k-th visited row is paired with row k of G, not row order[k]")
+b("pcgrad-zip-self-not-skipped", ["C18"], "@seed", _os.path.join(_PD, "pcgrad-zip-self-not-skipped.diff"), "", "row i is projected off itself")
